@@ -169,6 +169,10 @@ def body_for(beh: Dict[str, Any], req: Optional[Dict[str, Any]]) -> Tuple[bytes,
         msgs = [note1, resp]
     elif kind == "notes_response":
         msgs = [note1, note2, resp]
+    elif kind == "repeated_notes_response":
+        # the same notification several times in a row (the same log line, equal progress ticks, list_changed twice):
+        # every one of them is a message the server sent
+        msgs = [note1, note1, note2, note2, note2, resp]
     elif kind == "response_then_note":
         msgs = [resp, note2]
     elif kind == "server_request_then_response":
@@ -252,6 +256,8 @@ def single_behaviours() -> List[Dict[str, Any]]:
                 for body in ("notes_response", "response_then_note", "server_request_then_response", "note_only",
                              "sse_no_message", "sse_bad_json"):
                     out.append({"status": status, "ctype": ct, "body": body})
+    out.append({"status": 200, "ctype": "sse", "body": "repeated_notes_response"})
+    out.append({"status": 200, "ctype": "json", "body": "repeated_notes_response"})
     for enc in SSE_ENCODINGS:
         for body in ("response", "notes_response", "error"):
             out.append({"status": 200, "ctype": "sse", "body": body, "sse": enc})
